@@ -755,6 +755,80 @@ func C18(c *core.Ctx) {
 		c.Decide(nAdd > 0 && bad == "", "R18.8", "cost-bounded-before-addition", p.Pos(ru.Pos()), fmt.Sprintf("%d additions to an advertised cost, each behind 'advertised cost < infinity'", nAdd), "ribUpdate adds the link cost to "+bad+" before that cost was compared with infinity: the wire-valid cost 2^64-1 wraps around to 0, the destination is installed as a cost-0 route and re-advertised with cost 0")
 	}
 
+	// ---- R18.17 "no advertisement ever lists …" / re-convergence: the advertisement a
+	// router serves is built from its entries when it is asked for — every return of
+	// Rib.Advert lies behind the iteration over the entries made in this call. An
+	// advertisement remembered from an earlier call is right only if every change of an
+	// entry drops it, and changes reach the entries through several doors (Set,
+	// RemoveNextHop, Prune).
+	if ad := c.Fn("R18.17", "dv/table", "Rib", "Advert"); ad != nil {
+		var iters []ssa.Instruction
+		core.Instrs(ad, func(in ssa.Instruction) {
+			if rg, ok := in.(*ssa.Range); ok {
+				if _, okF := core.FieldOf(rg.X, "entries"); okF {
+					iters = append(iters, in)
+				}
+			}
+		})
+		stale := ""
+		core.Instrs(ad, func(in ssa.Instruction) {
+			r, isR := in.(*ssa.Return)
+			if !isR || in.Block() == ad.Recover || len(r.Results) == 0 || core.IsNilConst(core.Strip(r.Results[0])) {
+				return
+			}
+			if !core.Precedes(ad, r, func(x ssa.Instruction) bool {
+				for _, l := range iters {
+					if x == l {
+						return true
+					}
+				}
+				return false
+			}) {
+				stale = c.Pos(r)
+			}
+		})
+		c.Decide(stale == "" && len(iters) > 0, "R18.17", "advertisement-built-when-asked-for", p.Pos(ad.Pos()), "every return of Rib.Advert lies behind the iteration over the entries", "Rib.Advert can return an advertisement that was not built from the entries in this call (return at "+stale+"): after a change that does not drop the remembered one (a next hop removed with no destination deleted) the router keeps serving the old cost and next hop, and its neighbours never re-converge")
+		c.Floor("R18.17", "iterations over the entries in Rib.Advert", len(iters), 1)
+	}
+	// ---- R18.18 a removed neighbour's advertisement is forgotten: ribUpdate, started as a
+	// goroutine when an advertisement arrives, recognises a neighbour that was removed in
+	// the meantime by its nil Advert. While ribUpdate has that test, NeighborState.delete
+	// stores nil to Advert on every path — otherwise the pending update re-installs all
+	// routes through the removed neighbour and nothing withdraws them.
+	{
+		ru := c.Fn("R18.18", "dv/dv", "Router", "ribUpdate")
+		del := c.Fn("R18.18", "dv/table", "NeighborState", "delete")
+		if ru != nil && del != nil {
+			tests := false
+			core.InstrsDeep(ru, func(in ssa.Instruction) {
+				if iff, ok := in.(*ssa.If); ok {
+					if op, x, y, okC := core.Cmp(iff.Cond); okC && (op == token.EQL || op == token.NEQ) && core.IsNilConst(y) {
+						if _, okF := core.FieldOf(x, "Advert"); okF {
+							tests = true
+						}
+					}
+				}
+			})
+			if !tests {
+				c.Ok("R18.18", "removed-neighbour-forgets-its-advertisement", p.Pos(del.Pos()), "ribUpdate does not recognise a removed neighbour by its nil advertisement (not applicable)")
+			} else {
+				isClear := func(in ssa.Instruction) bool {
+					st, ok := in.(*ssa.Store)
+					if !ok || !core.IsNilConst(core.Strip(st.Val)) {
+						return false
+					}
+					fa, ok := st.Addr.(*ssa.FieldAddr)
+					if !ok {
+						return false
+					}
+					_, f := core.FieldAddrName(fa)
+					return f == "Advert"
+				}
+				fr := core.MustFollowDeep(del, core.Point{Block: del.Blocks[0], Idx: 0}, isClear, nil)
+				c.Decide(fr.OK, "R18.18", "removed-neighbour-forgets-its-advertisement", p.Pos(del.Pos()), "NeighborState.delete clears Advert on every path", "NeighborState.delete can return without clearing the neighbour's advertisement while ribUpdate recognises a removed neighbour by Advert == nil: an update that was started before the removal and runs after it re-installs every route through the removed neighbour, and nothing withdraws them")
+			}
+		}
+	}
 	// ---- R18.16 a Sync Interest that is ignored does not keep the neighbour alive for ever.
 	// RecvPing ignores a passive ping from another face while the neighbour is marked active
 	// on its current face. If every ping refreshes lastSeen first, a neighbour whose active
